@@ -17,7 +17,7 @@ from labtech.storage import LocalStorage
 
 from ..common import HarnessError, Result, Violation, pmap, silence_labtech
 from ..faults import FaultyStorage, InjectedFault, LineInjector, in_files
-from ..savepath import CASES, good_run, mk_task, recovery, tmpdir, value_of
+from ..savepath import ALT, CASES, cache_class, good_run, mk_task, recovery, tmpdir, value_of
 from ..universe import WORLD
 
 
@@ -55,10 +55,19 @@ def one_case(args):
     """args = (case, overwrite, kind, at, mode). kind: 'baseline' | 'op' | 'line' | 'natural'."""
     case, overwrite, kind, at, mode = args[:5]
     same_lab = len(args) > 5 and args[5] == 'same-lab'
+    # 'foreign': the key already holds a complete entry written by ANOTHER cache class with the same
+    # key prefix and file names (the type's cache was switched); no bust_cache - the entry is no hit
+    foreign = len(args) > 5 and args[5] == 'foreign'
     silence_labtech()
     d = tmpdir('c12_')
     try:
         ok = [value_of(case, 2)]
+        if foreign:
+            with cache_class(case, ALT):
+                if good_run(d, case, 1) != value_of(case, 1):
+                    raise HarnessError(f'preparation run (other cache class) failed for {case}')
+            if labtech.Lab(storage=LocalStorage(d), runner_backend='serial', notebook=False).is_cached(mk_task(case)):
+                raise HarnessError('an entry written by another cache class counts as a hit')
         if overwrite:
             # the unserialisable cases are preceded by a good entry of the same task written directly
             if 'unpickl' in case or 'unserial' in case:
@@ -131,6 +140,12 @@ def one_case(args):
         rec, reported_cached = recovery(d, case, ok)
         for key, msg in rec:
             viols.append((key, msg))
+        if foreign:
+            # the session that wrote the old entry (type configured with the other cache class) looks again
+            rec2, rc2 = recovery(d, case, ok + [value_of(case, 1)], observer_cache=ALT)
+            reported_cached = reported_cached or rc2
+            for key, msg in rec2:
+                viols.append((key, f'[observer configured with the cache class that wrote the old entry] {msg}'))
         if same_lab:
             # ask the very Lab object that performed the failed overwrite
             fs.at = fs.defer_open = None
@@ -152,7 +167,7 @@ def one_case(args):
                     viols.append(('reported-cached-but-run-raised', f'[same Lab object] run_tasks raised {type(e).__name__}: {e}'))
         if fired and outcome == ('return', True) and kind == 'natural':
             viols.append(('unserialisable-reported-ok', 'the result cannot be serialised but the task was reported as successful'))
-        phase = 'overwrite' if overwrite else 'first-save'
+        phase = 'over-entry-of-other-cache-class' if foreign else 'overwrite' if overwrite else 'first-save'
         return {'kind': kind, 'fired': fired, 'reported_failed': reported_failed, 'reported_cached': reported_cached,
                 'viols': [(f'{k}:{phase}', f'{case} {phase} {where}: {m}') for k, m in viols]}
     finally:
@@ -193,6 +208,18 @@ def run(tier: str, seed: int) -> Result:
             if ow and case in ('pickle-small', 'json-small'):
                 for at in range(1, b['ops'] + 1):
                     work.append((case, ow, 'op', at, 'raise', 'same-lab'))
+            if not ow and case in ('pickle-small', 'pickle-multi'):
+                # the save goes over a complete entry that another cache class wrote under the same key
+                bf = one_case((case, False, 'baseline', None, None, 'foreign'))
+                if bf['outcome'] != ('return', True):
+                    raise HarnessError(f'baseline save of {case} over an entry of another cache class did not succeed: {bf["outcome"]}')
+                baselines[(case, 'foreign')] = bf
+                for at in range(1, bf['ops'] + 1):
+                    work.append((case, False, 'op', at, 'raise', 'foreign'))
+                for at in range(1, bf['lines'] + 1):
+                    work.append((case, False, 'line', at, None, 'foreign'))
+                for at in range(1, bf['opens'] + 1):
+                    work.append((case, False, 'defer', at, None, 'foreign'))
     for case in natural:
         for ow in (False, True):
             work.append((case, ow, 'natural', None, None))
@@ -210,7 +237,7 @@ def run(tier: str, seed: int) -> Result:
         'distinct_nontrivial': fired,
         'rule': ('one evaluation = one real serial-backend run with exactly one injected fault (storage operation #j: open / write call / close; a handle whose data is lost at close; the same single faults with ONE Lab object performing and then judging the failed overwrite; or the '
                  'k-th executed line of cache.py/storage.py/serialization.py inside BaseCache.save, raising an OSError or a non-Exception BaseException) or a result that cannot be serialised (fails before / after one / '
-                 'after many frames); x {PickleCache, JSON cache} x {small, multi-frame, one large out-of-frame bytes object} x {first save, overwrite via bust_cache}; followed by the recovery '
+                 'after many frames); x {PickleCache, JSON cache} x {small, multi-frame, one large out-of-frame bytes object} x {first save, overwrite via bust_cache, save over a complete entry that another cache class with the same key prefix wrote - judged by observers of either class}; followed by the recovery '
                  'oracle on a fresh Lab (is_cached, cached_tasks, run_tasks); distinct_nontrivial = injections that actually fired'),
         'samples': [repr(w) for w in (work[0], work[len(work) // 2], work[-1])] + [
             {'baseline': k, 'storage_ops': v['ops'], 'line_events_in_save': v['lines']} for k, v in list(baselines.items())[:2]],
